@@ -45,6 +45,8 @@ THEOREMS = [
     "options_reattached", "options_reattached_partial", "reattach_schema_import_refuted",
     "wrapped_follows_options", "wrapped_follows_options_partial", "wrapped_stale_refuted",
     "toy_format_ok", "mem_options_reattached", "mem_warm_fetches_nothing",
+    "get_never_raises_preempted", "purge_never_raises_preempted", "get_preempted_returns_stored",
+    "preempted_get_is_get", "purge_check_then_act_refuted",
     "interleaved_gets_safe", "interleaving_needs_format_refuted", "mixture_rejecting_format_exists",
 ]
 
@@ -88,6 +90,28 @@ class World(object):
         self.ctime = {}
         self.fault = None        # None | ("open",) | ("read",) | ("write", n, zf, crash) | ("close",)
         self.opens = 0
+        self.stepper = None      # step-controlled schedule: see Stepper
+        self.pending_deny = None  # exception the NEXT system call raises if it is os.remove
+
+    def ev(self, phase, kind, path):
+        """One hook event of the instance under test (before / after a system call)."""
+        st = self.stepper
+        if st is not None:
+            self.stepper = None          # what the environment does is not part of the trace
+            try:
+                st.event(phase, kind, path)
+            finally:
+                self.stepper = st
+        if phase == "pre" and kind in ("getctime", "open", "remove"):
+            exc, self.pending_deny = self.pending_deny, None
+            if exc is not None and kind == "remove":
+                raise exc
+
+    def syscall(self, kind, path, call):
+        self.ev("pre", kind, path)
+        r = call()
+        self.ev("post", kind, path)
+        return r
 
     # ---- shims
     def install(self):
@@ -106,20 +130,52 @@ class World(object):
             datetime = FakeDateTime
             timedelta = real_td
 
+        def getctime(path):
+            os.stat(path)      # raises like the real one for a missing file
+            return BASE.timestamp() + world.ctime.get(os.path.realpath(path), 0)
+
         class PathProxy(object):
             def __getattr__(self, n):
                 return getattr(os.path, n)
 
             @staticmethod
             def getctime(path):
-                os.stat(path)      # raises like the real one for a missing file
-                return BASE.timestamp() + world.ctime.get(os.path.realpath(path), 0)
+                return world.syscall("getctime", path, lambda: getctime(path))
+
+            @staticmethod
+            def exists(path):
+                return world.syscall("exists", path, lambda: os.path.exists(path))
+
+            @staticmethod
+            def isfile(path):
+                return world.syscall("exists", path, lambda: os.path.isfile(path))
+
+            @staticmethod
+            def isdir(path):
+                return world.syscall("isdir", path, lambda: os.path.isdir(path))
 
         class OsProxy(object):
             path = PathProxy()
 
             def __getattr__(self, n):
                 return getattr(os, n)
+
+            @staticmethod
+            def remove(path):
+                return world.syscall("remove", path, lambda: os.remove(path))
+            unlink = remove
+
+            @staticmethod
+            def listdir(path):
+                return world.syscall("listdir", path, lambda: os.listdir(path))
+
+            @staticmethod
+            def makedirs(path, *a, **k):
+                return world.syscall("makedirs", path, lambda: os.makedirs(path, *a, **k))
+
+            @staticmethod
+            def stat(path, *a, **k):
+                return world.syscall("getctime", path, lambda: os.stat(path, *a, **k))
 
         self._saved = (suds.cache.datetime, suds.cache.os, suds.cache.__dict__.get("open"))
         suds.cache.datetime = DT
@@ -137,9 +193,11 @@ class World(object):
     def open(self, path, mode="r", *args, **kw):
         self.opens += 1
         flt = self.fault
+        self.ev("pre", "open", path)
         if flt and flt[0] == "open":
             raise InjectedIOError("injected open failure")
         f = open(path, mode, *args, **kw)
+        self.ev("post", "open", path)
         if "w" in mode or "a" in mode or "+" in mode:
             self.ctime[os.path.realpath(path)] = self.clock
             if flt and flt[0] == "write":
@@ -155,6 +213,25 @@ class World(object):
         with open(path, "wb") as f:
             f.write(data)
         self.ctime[os.path.realpath(path)] = self.clock
+
+
+class Stepper(object):
+    """Step-controlled schedule: the hook events (before / after every system call) of the
+    instance under test are numbered; when event number `target` fires, `action(phase, kind,
+    path)` -- the environment's move -- runs, then the instance carries on."""
+
+    def __init__(self, target, action):
+        self.trace = []
+        self.target = target
+        self.action = action
+        self.fired = False
+
+    def event(self, phase, kind, path):
+        idx = len(self.trace)
+        self.trace.append((phase, kind))
+        if idx == self.target and not self.fired:
+            self.fired = True
+            self.action(phase, kind, path)
 
 
 class TornWriter(object):
@@ -1647,6 +1724,124 @@ def check_mem_clients(ck):
     return keep, set(res["c11_mem_agrees"]), set(res["c11_mem_spec_ok"])
 
 
+# ---- one operation of instance A, preempted once by another instance B at every system call
+
+PPRE = "From SV Require Import Lib.Base C11.Model C11.Preempt."
+P_ACTIONS = ("purge", "clear", "vanish", "deny-eperm", "deny-enoent")
+P_SCENARIOS = (("get", "intact"), ("get", "torn"), ("get", "expired"), ("get", "missing"),
+               ("purge", "intact"), ("purge", "missing"), ("put", "new"), ("put", "over"), ("clear", "intact"))
+
+
+def run_preempted(kind, op, state, action, target, objects, location):
+    """-> (result, entry exists afterwards, trace, fired)"""
+    import errno
+    import suds.cache
+    cls = {"KGcf": suds.cache.FileCache, "KXml": suds.cache.DocumentCache, "KPx": suds.cache.ObjectCache}[kind]
+    world = World()
+    world.install()
+    try:
+        a = cls(location, seconds=10)
+        b = cls(location, seconds=0)
+        path = os.path.join(location, entry_name(kind, "a"))
+        if state != "missing" and state != "new":
+            a.put("a", objects[kind][1])
+            if state == "torn":
+                with open(path, "rb") as f:
+                    data = f.read()
+                world.plant(path, data[:max(len(data) // 2, 1)] if kind != "KGcf" else data)
+        world.clock = 11 if state == "expired" else 5
+
+        def act(phase, ev_kind, ev_path):
+            if action == "purge":
+                b.purge("a")
+            elif action == "clear":
+                b.clear()
+            elif action == "vanish":
+                try:
+                    os.unlink(path)
+                except OSError:
+                    pass
+            elif (phase, ev_kind) != ("post", "open"):       # after an open the next call is the read
+                # our next system call fails if it is os.remove
+                world.pending_deny = (PermissionError(errno.EPERM, "injected: operation not permitted", path)
+                                      if action == "deny-eperm" else
+                                      FileNotFoundError(errno.ENOENT, "injected: no such file", path))
+        st = Stepper(target, act)
+        world.stepper = st
+        try:
+            if op == "get":
+                got = a.get("a")
+                res = "RNone" if got is None else ("RObj", obj_index(kind, objects, got))
+            elif op == "purge":
+                a.purge("a")
+                res = "RUnit"
+            elif op == "put":
+                a.put("a", objects[kind][0])
+                res = "RUnit"
+            else:
+                a.clear()
+                res = "RUnit"
+        except Exception as e:
+            res = "RRaise"
+            st.error = "%s: %s" % (type(e).__name__, e)
+        world.stepper = None
+        return res, os.path.exists(path), st.trace, st.fired, getattr(st, "error", None)
+    finally:
+        world.stepper = None
+        world.uninstall()
+
+
+def model_steps_before(trace, p):
+    """How many system calls of the model's program (getctime, remove, open, read) were completed
+    when hook event number p fired; the read follows the open without a hook of its own."""
+    done = sum(1 for ph, k in trace[:p + 1] if ph == "post" and k in ("getctime", "remove", "open"))
+    if ("post", "open") in trace[:p]:
+        done += 1
+    return done
+
+
+def check_preempt(ck, objects):
+    terms, meta, pybad = [], [], []
+    n = 0
+    for kind in KINDS:
+        for op, state in P_SCENARIOS:
+            if kind == "KGcf" and state == "torn":
+                continue
+            loc = os.path.join(ROOT, "p%d" % n, "cache")
+            n += 1
+            base = run_preempted(kind, op, state, "vanish", -1, objects, loc)
+            shutil.rmtree(os.path.dirname(loc), ignore_errors=True)
+            for p in range(len(base[2])):
+                for action in P_ACTIONS:
+                    loc = os.path.join(ROOT, "p%d" % n, "cache")
+                    n += 1
+                    res, exists, trace, fired, err = run_preempted(kind, op, state, action, p, objects, loc)
+                    shutil.rmtree(os.path.dirname(loc), ignore_errors=True)
+                    ck.seen(("preempt", kind, op, state, action, p), nontrivial=fired)
+                    ck.count("preempt:%s-%s:%s" % (op, state, res if not isinstance(res, tuple) else "hit"))
+                    info = (kind, op, state, action, p, trace[p] if p < len(trace) else None, res, exists, err)
+                    if op in ("put", "clear"):
+                        # put must swallow everything; clear() racing with a removal raises by design
+                        # (not a lookup): counted, not judged
+                        if op == "put" and res == "RRaise":
+                            pybad.append(info)
+                        continue
+                    entry = None
+                    if state not in ("missing",):
+                        entry = "(%s, %s)" % ("(toy_ser %s 1%%N)" % kind if state != "torn" else "[9; 9]%N", cZ(0))
+                    stored = cN(1) if state in ("intact", "expired") else None
+                    j = model_steps_before(trace, p)
+                    act_term = {"purge": "(IRemove (fname %s p_id))" % kind, "vanish": "(IRemove (fname %s p_id))" % kind,
+                                "clear": "IClear"}.get(action, "IDeny")
+                    terms.append("(mkpcase %s %s %s %s %s %s %s %s %s %s)" % (
+                        kind, cZ(10), cZ(11 if state == "expired" else 5), copt(entry, "bytes * Z"),
+                        copt(stored, "N"), "(PGet NoFault)" if op == "get" else "PPurge", cnat(j), act_term,
+                        c_result(res), cbool(exists)))
+                    meta.append(info)
+    res = ck.run_cases("preempt", PPRE, "pcase", terms, ["c11_preempt_agrees", "c11_preempt_spec_ok"], shard=600)
+    return meta, set(res["c11_preempt_agrees"]), set(res["c11_preempt_spec_ok"]), pybad
+
+
 # ---- real processes (thorough tier)
 
 def _hammer_worker(args):
@@ -1781,6 +1976,9 @@ def _run(ck, version):
         "cachingpolicy=0 the loader grafts an imported schema document into the live cached WSDL tree, so a later "
         "client over a WSDL with a wsdl:import of a schema sees extra types -- such worlds are not driven with "
         "live documents (not flagged)",
+        "single preemptions (step-controlled): clear() racing with another instance's removal raises "
+        "FileNotFoundError from its unguarded os.remove (counted in coverage.distribution preempt:clear-*, not a "
+        "lookup, not flagged); when os.remove is denied a damaged/expired entry stays in place (environment failure)",
         "FileCache.__init__ raises when the location cannot be created/listed; clear() raises when another "
         "process removes a listed file first: neither is a lookup, not flagged",
     ]
@@ -1882,6 +2080,23 @@ def _run(ck, version):
     ck.extra["scenarios_failing_the_specification"] = len(c_spec)
 
     ck.extra["phase_seconds"]["clients"] = round(__import__("time").time() - ck.t0, 1)
+    # 3c. single preemptions: another instance acts between any two system calls of get/purge/put
+    pmeta, p_model, p_spec, p_put = check_preempt(ck, objects)
+    for info in sorted([pmeta[i] for i in p_spec], key=lambda m: (P_ACTIONS.index(m[3]), m[4])) + p_put[:1]:
+        kind, op, state, action, p, ev, res, exists, err = info
+        what = ("raised %s" % err) if res == "RRaise" else "returned an object that was not stored / is not fresh"
+        ck.failing_input("C11:%s-%s-when-preempted" % ("lookup" if op == "get" else op,
+                                                       "raises" if res == "RRaise" else "returns-unstored"),
+                         "%s.%s('a') over a %s entry %s when another instance's %s happens at its hook event #%d "
+                         "(%s)" % (kind, op, state, what, action, p, ev),
+                         {"kind": "preempt", "cache": kind, "op": op, "state": state, "action": action, "point": p,
+                          "observed": [res if not isinstance(res, tuple) else list(res), exists, err]})
+    if p_model - p_spec:
+        info = pmeta[sorted(p_model - p_spec)[0]]
+        unproved.append(("preempted operation: %r" % (info,),
+                         {"kind": "preempt", "cache": info[0], "op": info[1], "state": info[2], "action": info[3],
+                          "point": info[4], "observed": [str(info[6]), info[7], info[8]]}))
+    ck.extra["phase_seconds"]["preempt"] = round(__import__("time").time() - ck.t0, 1)
     # 4. real processes
     if ck.tier == "thorough":
         check_hammer(ck)
@@ -1967,6 +2182,13 @@ def replay(ck, payload):
                       "the uncached client: %s; own options still attached at the end: %s" % (
                           obs["fetched"], obs["exc"], obs["options_current"], obs["wrapped"], obs["ref_wrapped"],
                           obs["fp_same"], own))
+        elif kind == "preempt":
+            res, exists, trace, fired, err = run_preempted(payload["cache"], payload["op"], payload["state"],
+                                                           payload["action"], payload["point"], make_objects(),
+                                                           os.path.join(ROOT, "replay", "cache"))
+            print("  hook events of the operation: %s" % (trace,))
+            print("  the other instance's %s ran at event #%d: %s" % (payload["action"], payload["point"], fired))
+            print("  result: %s %s; entry file afterwards: %s" % (res, err or "", exists))
         elif kind == "sweep":
             import suds.cache
             shape, nops, style = payload["member"]
